@@ -9,9 +9,10 @@ heap entries `(quotient bits, remainder bits, handler, counter)` as `lib.entry` 
 Oracle (evaluated on the implementation for every `get` of every protocol-respecting history): plain reference
 model = dictionary handler -> time of its current event; see `Oracle`.
 
-Sanitizer replay: the finite pushes / trashes / gets / counter pokes / pickle round trips of the same histories are
-replayed through `harness/c06_asan/driver.c` linked against the scratch copy's heap.c under ASan+UBSan; its answers must
-equal the real scheduler's and the sanitizers must stay silent."""
+Sanitizer replay (run first, on every history): the finite pushes / trashes / gets / counter pokes / pickle round trips
+are replayed through `harness/c06_asan/driver.c` linked against the scratch copy's heap.c under ASan+UBSan; the
+sanitizers must stay silent (else: oracle failure `heap.c:invalid-memory-access:*` with the history as replay, and the
+in-process run is skipped) and the driver's answers must equal the real scheduler's."""
 import math, os, pickle, subprocess, tempfile
 from harness.drive import f2b, b2f
 
@@ -242,6 +243,37 @@ def gen_overflow(rng, big):
         g.maybe_extra(0.02, 0.05)
     g.get()
     return g.ops, "overflow"
+
+
+def gen_boundary(rng, big):
+    """exactly k entries (dead and current) with k around size - 2 (the spare slot is the last one of the block), then
+    the counter-overflow branch (delete_events writes the spare slot) for a handler with / without entries, then gets"""
+    nh = rng.randint(2, 5)
+    g = Gen(rng, nh + 1)
+    k = rng.choice([61, 62, 62, 63, 125, 126, 126, 127] + ([253, 254, 255, 510] if big else []))
+    n = 0
+    while n < k:
+        h = rng.randint(1, nh)
+        if h in g.live:
+            g.trash(h)
+        else:
+            g.push(h, pinf=0.0)
+            n += 1
+    fresh = nh + 1 if rng.random() < 0.6 else rng.randint(1, nh)
+    if fresh in g.live:
+        g.trash(fresh)
+    g.poke(fresh, W + rng.choice([0, 1, 5]))
+    g.push(fresh, pinf=0.0)
+    g.ops.append(("dump",))
+    for _ in range(rng.randint(1, 5)):
+        g.get()
+        live = list(g.live)
+        if live:
+            g.trash(rng.choice(live))
+    if rng.random() < 0.5:
+        g.ops.append(("pickle",)); g.ops.append(("dump",))
+        g.get()
+    return g.ops, "boundary"
 
 
 def gen_random(rng, big):
@@ -566,6 +598,26 @@ def to_lines(ops):
     return lines
 
 
+def asan_lines(ops):
+    """input of the sanitizer replay driver for one history (a function of the operations only)"""
+    out = ["R"]
+    for op in ops:
+        if op[0] == "push":
+            if is_fin((op[1], op[2])):
+                out.append(f"P {f2b(op[1])} {f2b(op[2])} {op[3]}")
+        elif op[0] == "trash":
+            out.append(f"T {op[1]}")
+        elif op[0] == "get":
+            out.append("G")
+        elif op[0] == "setmv":
+            out.append(f"S {op[1]} {op[2]}")
+        elif op[0] == "pickle":
+            out.append("K")
+        elif op[0] == "dump":
+            out.append("D")
+    return out
+
+
 def build_asan(ctx):
     src = os.path.join(ctx.root, "jellyfysh", "scheduler", "heap_scheduler")
     drv = os.path.join(os.path.dirname(os.path.dirname(os.path.abspath(__file__))), "c06_asan", "driver.c")
@@ -581,7 +633,7 @@ def build_asan(ctx):
 def run(ctx):
     rng = ctx.rng
     real = Real()
-    NH = ctx.n(1500, 24000)
+    NH = ctx.n(1500, 16000)
     big = not ctx.quick
     ctx.rule = ("seeded histories of push/trash/get/pickle/counter-poke/dump operations generated against a reference dictionary so "
                 "that they respect the mediator protocol (plus a protocol-violating stream for the correspondence only); kinds: "
@@ -589,7 +641,12 @@ def run(ctx):
                 "counters around 2^32, random; times from a small lattice (ties, equal quotients, equal remainders, -0.0, inf). "
                 "An evaluation is one operation of one history; a class is (kind, operation, outcome of heap and list scheduler, "
                 "tie?, lazy deletions bucket, heap size, counter regime)")
-    gens = [gen_mediator] * 4 + [gen_churn] * 2 + [gen_many] + [gen_overflow] * 2 + [gen_random] * 3 + [gen_wild]
+    ctx.notes.append("observation (outside the property's quantifier, not an oracle failure): when only infinite-time events are current the "
+                     "ListScheduler returns one of them and records inf as last returned time, after which its monotonicity assertion rejects "
+                     "every finite event; the HeapScheduler never stores infinite times and raises the 'empty' SchedulerError instead. "
+                     "The oracle accepts either outcome and accepts a monotonicity SchedulerError whenever the minimal current time is "
+                     "smaller than the time that scheduler returned last.")
+    gens = [gen_mediator] * 4 + [gen_churn] * 2 + [gen_many] + [gen_overflow] * 2 + [gen_boundary] + [gen_random] * 3 + [gen_wild]
     hist = list(CORPUS)
     STATS.clear()
     for _ in range(NH):
@@ -597,88 +654,14 @@ def run(ctx):
 
     for k_, v_ in STATS.items():
         ctx.count(k_, v_)
-    # ---- implementation + oracle
-    all_lines, per = [], []
-    asan_in, asan_exp, asan_idx = [], [], []
-    asan_every = ctx.n(6, 4)
+    # ---- sanitizer replay of heap.c FIRST (a memory error in the cffi build could take the harness process down):
+    #      every history, C driver linked against the scratch copy's heap.c under ASan+UBSan
+    asan_in, asan_idx = [], []
     for hi, (ops, kind) in enumerate(hist):
-        ctx.count("history:" + kind)
-        proto = kind != "wild"
-        orc = Oracle(ctx, ops, kind) if proto else None
-        try:
-            out, al, ae = run_real(real, ops, orc)
-        except Exception as e:  # noqa
-            ctx.fail(f"harness:exception:{type(e).__name__}", {"kind": kind, "ops": jsonable(ops)}, f"replay of the history raised {e!r}")
-            continue
-        if orc and orc.fails:
-            for sig in sorted({f[0] for f in orc.fails}):
-                small = shrink(ctx, real, ops, kind, sig)
-                o2 = oracle_sigs(ctx, real, small, kind)
-                what = next((f[2] for f in o2.fails if f[0] == sig), "")
-                ctx.fail(sig, {"kind": kind, "ops": jsonable(small), "history_index": hi}, what)
-        lines = to_lines(ops)
-        per.append((hi, ops, kind, out, len(all_lines), len(lines)))
-        all_lines += lines
-        if hi % asan_every == 0 or kind in ("churn", "overflow") and hi % 2 == 0:
-            asan_idx.append((hi, len(asan_in), len(al)))
-            asan_in += al; asan_exp += ae
-
-    # ---- model
-    rep = ctx.model("heap", all_lines)
-    nev = 0
-    for hi, ops, kind, out, off, ln in per:
-        mrep = rep[off + 1: off + ln]
-        bad = None
-        dead_run = 0
-        for k, (op, o, m) in enumerate(zip(ops, out, mrep)):
-            nev += 1
-            ctx.count("op:" + op[0])
-            if op[0] == "push" and o[0] == "raw" and not o[1].startswith("exc"):
-                impl, model = o[1], m
-                mlen, msize, mfault = (int(x) for x in m.split())
-                ctx.cls((kind, "push", msize, is_fin((op[1], op[2])), min(mlen, 1200) // 32))
-            elif o[0] == "dump":
-                t = m.split()
-                mlen, msize, mfault, n = int(t[0]), int(t[1]), int(t[2]), int(t[3])
-                ment = [" ".join(t[4 + 4 * i: 8 + 4 * i]) for i in range(n)]
-                impl = " ".join(o[1])
-                model = " ".join(ment) + (" FAULT" if mfault else "")
-                ctx.cls((kind, "dump", min(n, 600) // 40, msize))
-                ctx.count("dump:entries", n)
-                cnts = [int(x.split()[3]) for x in ment]
-                if cnts and max(cnts) >= W - 2:
-                    ctx.cls((kind, "dump:counter-near-2^32", max(cnts) - W))
-            else:
-                impl = o[1]
-                model = m
-                if op[0] == "get":
-                    model = " | ".join("err:guard" if x.strip().startswith("err:guard") else x.strip() for x in m.split("|"))
-                    a, b = [x.strip().split()[0] for x in model.split("|")[:2]]
-                    tie = a == "ok" and b == "ok" and model.split("|")[0].split()[1] != model.split("|")[1].split()[1]
-                    lazy = o[2]
-                    ctx.cls((kind, "get", a, b, tie, min(lazy, 3) if lazy < 8 else 8 * min(lazy // 8, 40)))
-                    ctx.count("get:lazy-deletions", lazy)
-                    if lazy >= 64:
-                        ctx.count("get:with>=64-lazy-deletions")
-                    ctx.count("get:" + a + "/" + b + ("/tie-different-handler" if tie else ""))
-                elif op[0] == "trash":
-                    ctx.cls((kind, "trash", m))
-                elif op[0] == "setmv":
-                    ctx.cls((kind, "setmv", op[2] - W))
-                else:
-                    ctx.cls((kind, op[0]))
-            if impl != model and bad is None:
-                bad = (k, impl, model)
-        if bad:
-            k, impl, model = bad
-            ctx.disagree("heap." + ops[k][0], {"kind": kind, "history_index": hi, "op_index": k, "ops": jsonable(ops[:k + 1])},
-                         impl[:2000], model[:2000])
-        if hi < 3:
-            ctx.sample({"kind": kind, "ops": jsonable(ops)[:12], "impl": [str(o[1])[:120] for o in out][:12], "model": mrep[:12]})
-    ctx.evaluations = nev
-    ctx.traces = len(per)
-
-    # ---- sanitizer replay of heap.c
+        al = asan_lines(ops)
+        asan_idx.append((hi, len(asan_in), len(al)))
+        asan_in += al
+    asan_got = None
     exe, err = build_asan(ctx)
     if exe is None:
         ctx.notes.append("sanitizer replay driver could not be built: " + (err or ""))
@@ -686,40 +669,142 @@ def run(ctx):
     else:
         env = dict(os.environ, ASAN_OPTIONS="detect_leaks=1:abort_on_error=0:exitcode=97", UBSAN_OPTIONS="print_stacktrace=1")
         p = subprocess.run([exe], input="".join(l + "\n" for l in asan_in), capture_output=True, text=True, env=env)
-        got = p.stdout.split("\n")
+        asan_got = p.stdout.split("\n")
+        if asan_got and asan_got[-1] == "":
+            asan_got.pop()
         ctx.count("asan:ops", len(asan_in))
         ctx.count("asan:histories", len(asan_idx))
-        first_bad = None
-        for j, e in enumerate(asan_exp):
-            if e is None:
-                continue
-            if j >= len(got) or got[j] != e:
-                first_bad = j
-                break
-        if p.returncode != 0 or "Sanitizer" in p.stderr or "runtime error" in p.stderr:
-            j = min(len(got) - 1, len(asan_in) - 1)
-            hi = next((h for h, off, n in asan_idx if off <= j < off + n), None)
-            case = {"history_index": hi, "kind": hist[hi][1] if hi is not None else None,
-                    "ops": jsonable(hist[hi][0]) if hi is not None else None}
-            kindline = next((l for l in p.stderr.splitlines() if "ERROR: AddressSanitizer" in l or "runtime error" in l), "sanitizer report")
-            kindtok = kindline.split("AddressSanitizer:")[-1].split()[0] if "AddressSanitizer:" in kindline else "undefined-behaviour"
-            ctx.fail("heap.c:invalid-memory-access:" + kindtok, case, (kindline + " || " + p.stderr[-1500:]))
-        elif first_bad is not None:
-            j = first_bad
-            hi = next((h for h, off, n in asan_idx if off <= j < off + n), None)
-            ctx.disagree("asan.replay (C driver vs real HeapScheduler)", {"history_index": hi, "line": asan_in[j]}, asan_exp[j][:500],
-                         (got[j] if j < len(got) else "<missing>")[:500])
         try:
             os.unlink(exe); os.rmdir(os.path.dirname(exe))
         except OSError:
             pass
+        if p.returncode != 0 or "Sanitizer" in p.stderr or "runtime error" in p.stderr:
+            j = min(len(asan_got), len(asan_in) - 1)          # index of the request that did not get its reply
+            hi = next((h for h, off, n in asan_idx if off <= j < off + n), None)
+            ops_bad = hist[hi][0] if hi is not None else []
+            upto = j - asan_idx[hi][1] if hi is not None else 0
+            # cut the history after the operation that triggered the report
+            cnt, cut = 0, len(ops_bad)
+            for k, op in enumerate(ops_bad):
+                if not (op[0] == "push" and not is_fin((op[1], op[2]))):
+                    cnt += 1
+                if cnt >= upto:
+                    cut = k + 1
+                    break
+            kindline = next((l for l in p.stderr.splitlines() if "ERROR: AddressSanitizer" in l or "ERROR: LeakSanitizer" in l
+                             or "runtime error" in l), "sanitizer report (exit code %d)" % p.returncode)
+            kindtok = (kindline.split("AddressSanitizer:")[-1].split()[0] if "AddressSanitizer:" in kindline else
+                       "leak" if "LeakSanitizer" in kindline else "undefined-behaviour")
+            ctx.fail("heap.c:invalid-memory-access:" + kindtok,
+                     {"kind": hist[hi][1] if hi is not None else None, "history_index": hi, "ops": jsonable(ops_bad[:cut]),
+                      "replay_with": "harness/c06_asan/driver.c under -fsanitize=address,undefined"},
+                     kindline + " || " + p.stderr[-1200:])
+            ctx.notes.append("sanitizer report: the in-process run of the real scheduler was skipped (it could crash the harness)")
+            ctx.evaluations = len(asan_got)
+            return
+    nev, ntr = 0, 0
+    BATCH = 1000
+    for b0 in range(0, len(hist), BATCH):
+        # ---- implementation + oracle
+        all_lines, per = [], []
+        for hi, (ops, kind) in enumerate(hist[b0:b0 + BATCH], b0):
+            ctx.count("history:" + kind)
+            proto = kind != "wild"
+            orc = Oracle(ctx, ops, kind) if proto else None
+            try:
+                out, al, ae = run_real(real, ops, orc)
+            except Exception as e:  # noqa
+                ctx.fail(f"harness:exception:{type(e).__name__}", {"kind": kind, "ops": jsonable(ops)}, f"replay of the history raised {e!r}")
+                continue
+            if orc and orc.fails:
+                for sig in sorted({f[0] for f in orc.fails}):
+                    small = shrink(ctx, real, ops, kind, sig)
+                    o2 = oracle_sigs(ctx, real, small, kind)
+                    what = next((f[2] for f in o2.fails if f[0] == sig), "")
+                    ctx.fail(sig, {"kind": kind, "ops": jsonable(small), "history_index": hi}, what)
+            lines = to_lines(ops)
+            per.append((hi, ops, kind, out, len(all_lines), len(lines)))
+            all_lines += lines
+            if asan_got is not None:
+                off = asan_idx[hi][1]
+                for j, e in enumerate(ae):
+                    g = asan_got[off + j] if off + j < len(asan_got) else "<missing>"
+                    if e is not None and g != e:
+                        ctx.disagree("asan.replay (C driver on heap.c vs real HeapScheduler)",
+                                     {"history_index": hi, "kind": kind, "line": asan_in[off + j], "ops": jsonable(ops)[:200]}, e[:500], g[:500])
+                        break
+
+        # ---- model
+        rep = ctx.model("heap", all_lines)
+        for hi, ops, kind, out, off, ln in per:
+            mrep = rep[off + 1: off + ln]
+            bad = None
+            dead_run = 0
+            for k, (op, o, m) in enumerate(zip(ops, out, mrep)):
+                nev += 1
+                ctx.count("op:" + op[0])
+                if op[0] == "push" and o[0] == "raw" and not o[1].startswith("exc"):
+                    impl, model = o[1], m
+                    mlen, msize, mfault = (int(x) for x in m.split())
+                    ctx.cls((kind, "push", msize, is_fin((op[1], op[2])), min(mlen, 1200) // 32))
+                elif o[0] == "dump":
+                    t = m.split()
+                    mlen, msize, mfault, n = int(t[0]), int(t[1]), int(t[2]), int(t[3])
+                    ment = [" ".join(t[4 + 4 * i: 8 + 4 * i]) for i in range(n)]
+                    impl = " ".join(o[1])
+                    model = " ".join(ment) + (" FAULT" if mfault else "")
+                    ctx.cls((kind, "dump", min(n, 600) // 40, msize))
+                    ctx.count("dump:entries", n)
+                    cnts = [int(x.split()[3]) for x in ment]
+                    if cnts and max(cnts) >= W - 2:
+                        ctx.cls((kind, "dump:counter-near-2^32", max(cnts) - W))
+                else:
+                    impl = o[1]
+                    model = m
+                    if op[0] == "get":
+                        model = " | ".join("err:guard" if x.strip().startswith("err:guard") else x.strip() for x in m.split("|"))
+                        a, b = [x.strip().split()[0] for x in model.split("|")[:2]]
+                        tie = a == "ok" and b == "ok" and model.split("|")[0].split()[1] != model.split("|")[1].split()[1]
+                        lazy = o[2]
+                        ctx.cls((kind, "get", a, b, tie, min(lazy, 3) if lazy < 8 else 8 * min(lazy // 8, 40)))
+                        ctx.count("get:lazy-deletions", lazy)
+                        if lazy >= 64:
+                            ctx.count("get:with>=64-lazy-deletions")
+                        ctx.count("get:" + a + "/" + b + ("/tie-different-handler" if tie else ""))
+                    elif op[0] == "trash":
+                        ctx.cls((kind, "trash", m))
+                    elif op[0] == "setmv":
+                        ctx.cls((kind, "setmv", op[2] - W))
+                    else:
+                        ctx.cls((kind, op[0]))
+                if impl != model and bad is None:
+                    bad = (k, impl, model)
+            if bad:
+                k, impl, model = bad
+                ctx.disagree("heap." + ops[k][0], {"kind": kind, "history_index": hi, "op_index": k, "ops": jsonable(ops[:k + 1])},
+                             impl[:2000], model[:2000])
+            if hi < 3:
+                ctx.sample({"kind": kind, "ops": jsonable(ops)[:12], "impl": [str(o[1])[:120] for o in out][:12], "model": mrep[:12]})
+        ntr += len(per)
+    ctx.evaluations = nev
+    ctx.traces = ntr
+
 
 
 def replay(ctx, case):
-    real = Real()
     c = case.get("case", case)
     ops = from_json(c["ops"])
+    res = {}
+    exe, err = build_asan(ctx)
+    if exe:
+        env = dict(os.environ, ASAN_OPTIONS="detect_leaks=1:abort_on_error=0:exitcode=97", UBSAN_OPTIONS="print_stacktrace=1")
+        p = subprocess.run([exe], input="".join(l + "\n" for l in asan_lines(ops)), capture_output=True, text=True, env=env)
+        res["sanitizer"] = {"exit": p.returncode, "report": p.stderr[:3000]}
+        if p.returncode != 0:
+            return res                      # do not run a memory-unsafe heap.c inside the harness process
+    real = Real()
     o = oracle_sigs(ctx, real, ops, c.get("kind", "replay"))
     out, _, _ = run_real(real, ops)
     rep = ctx.model("heap", to_lines(ops))[1:]
-    return {"oracle_failures": o.fails, "impl": [str(x[1])[:200] for x in out], "model": [r[:200] for r in rep]}
+    res.update({"oracle_failures": o.fails, "impl": [str(x[1])[:200] for x in out], "model": [r[:200] for r in rep]})
+    return res
